@@ -44,7 +44,7 @@ man = {
         "guard": "--cfg scylla_verif",
         "enable": "RUSTFLAGS=\"--cfg scylla_verif\" (set in /verif/harness/.cargo/config.toml); hooks are "
                   "#[cfg(scylla_verif)] pub mod verif_hooks at the end of the files they touch",
-        "baseline_off_cmd": "/verif/orchestrate/baseline_off.sh   # = cd /repo && cargo nextest run --workspace --no-fail-fast --tool-config-file pb:/w/lib/nextest.toml --profile pb --test-threads 8 --offline, then compares the junit result with BASELINE.json stable_pass (last run: 496/496 pass with the guard off)",
+        "baseline_off_cmd": "/verif/orchestrate/baseline_off.sh",
         "source_commits": hooks,
         "add_only": True,
     },
